@@ -332,6 +332,21 @@ def run(ctx, rep):
 def range_ok(pname, cond, leaf):
     """The documented range test: k_exp outside [0,1]; area <= 0.001."""
     nums = sorted(float(x.a[0]) for x in tm.subterms(cond) if x.op == "num")
+    # the refusal condition is evaluated at sample values of the parsed number, the boundaries included:
+    #   k_exp: refused outside [0, 1], accepted at 0, 1 and inside;  area: refused up to and including 0.001
+    pts = ([(-0.1, True), (1.1, True), (0.0, False), (1.0, False), (0.5, False)] if pname == "k_exp"
+           else [(0.0005, True), (0.001, True), (0.0, True), (0.002, False), (1.0, False)])
+    decided = 0
+    for v, refused in pts:
+        r = tm.subst(cond, {leaf: tm.num(v)})
+        if r is tm.TRUE or r is tm.FALSE:
+            decided += 1
+            if (r is tm.TRUE) != refused:
+                return False
+    if decided == len(pts):
+        return True
+    if any(x.op in ("call", "range_contains") for x in tm.subterms(cond)):
+        return False          # the test goes through a function without a model: the boundary is not known (fail closed)
     if pname == "k_exp":
         return 0.0 in nums and 1.0 in nums
     return any(abs(n - 0.001) < 1e-9 for n in nums)
